@@ -325,6 +325,10 @@ def one_site(out, eng, f, poll_bb, oid):
                         s.pop()
                 else:
                     enum_unmodelled += 1
+                    # the value tested against the interval is neither a local this loop increments by one nor the index of
+                    # an enumerate() over the loop's own iterator: nothing makes it count iterations
+                    bad = bad or ("the value tested against the polling interval is neither a counter the loop increments by one "
+                                  "nor the enumeration index of the loop's iterator, so it does not count iterations")
             if not rems_:
                 bad = "an iteration completes without evaluating the poll condition"
             # a polled iteration continued: the watchdog must have said "go on"
